@@ -77,6 +77,7 @@ func runSchedJob(c *Ctl, job *Job, idx int, res *RunResult) {
 		switch world % 16 {
 		case 5:
 			shape = "wide-nested"
+			prof.PreemptPct, prof.PreemptDepth = 40, 12 // several nested loops: hold some in the middle of a pass
 		case 11:
 			// one pipeline nested by two stages, failures inside it likely: the second nesting stage
 			// often starts when the nested pipeline has already been run by the first
